@@ -246,6 +246,7 @@ func c09Case(c *core.Ctx, idx int) {
 		}
 		return p
 	}
+	var prev reflect.Value
 	for j := 0; j < nv; j++ {
 		vg := &gen.VG{R: rv, C: cfg, Budget: 120}
 		v := vg.Value(typ, "")
@@ -294,6 +295,31 @@ func c09Case(c *core.Ctx, idx int) {
 			rec.Violation("presence-value", fmt.Sprintf("value under a presence-bearing position changed [%s]: %s\n  type %s\n  value %s\n  got   %s\n  bytes %s", tc.name, d, typeString(typ), model.Show(v), model.Show(out.Elem()), hexHead(data)), caseExtra(tc, v, data))
 			return
 		}
+		// the same message into the target of the previous iteration (other presence states, other
+		// values still in place): present positions take the message's value, whatever was there
+		if prev.IsValid() {
+			got, exp := reflect.New(typ), reflect.New(typ)
+			got.Elem().Set(model.DeepCopy(prev))
+			exp.Elem().Set(model.DeepCopy(prev))
+			if err := cfg.Decode(exp.Elem(), data); err == nil {
+				err, pn := unmarshal(tc.p, data, got.Interface())
+				rec.Eval(1)
+				if err != nil || pn != "" {
+					rec.Violation("unmarshal-error", fmt.Sprintf("[%s] into a re-used target: %v %s", tc.name, err, pn), caseExtra(tc, v, data))
+					return
+				}
+				d := presenceDiff(exp.Elem(), got.Elem(), "$")
+				if d == "" {
+					d = model.Diff(exp.Elem(), got.Elem(), "$")
+				}
+				if d != "" {
+					rec.Violation("presence-value", fmt.Sprintf("decoding into a target that held another value: a present position does not take the message's value (or an absent one is touched) [%s]: %s\n  type %s\n  value %s\n  target before %s\n  target after  %s\n  bytes %s", tc.name, d, typeString(typ), model.Show(v), model.Show(prev), model.Show(got.Elem()), hexHead(data)), caseExtra(tc, v, data))
+					return
+				}
+				rec.Count("reused_target_decodes", 1)
+			}
+		}
+		prev = out.Elem()
 		// plain (non-pointer) scalar, string, slice and time fields have no presence:
 		// field 2 (Q, the plain twin of P) must be absent from the encoding exactly when it is zero
 		if T.Kind() != reflect.Struct || T == model.TimeT {
